@@ -125,6 +125,16 @@ func c16Rules(tier string) []Rule {
 			G(`+^iface:\(cr/client\.Reader\)\.List\(\$0\.kubeClient, <\*corev1\.NodeList>.* == nil$`),
 			G(`-^lo\.Must\[int\]\(apim/util/intstr\.GetScaledValueFromIntOrPercent\(controllers/node/health\.allowedUnhealthyPercent, len\(&local<corev1\.NodeList>\.Items\), true\)#0, .*\) < lo\.CountBy\[corev1\.Node\]\(&local<corev1\.NodeList>\.Items, `),
 		)},
+		// what is counted: a node is unhealthy when *some* repair policy (every policy is consulted) matches its condition
+		core.Custom{ID: "C16.PROV4", Kind: "PROV", Run: func(w *core.World, id string) []core.Result {
+			const anh = "(*controllers/node/health.Controller).areNodesHealthy"
+			cnt := "@arg:" + anh + `|^call lo\.CountBy\[corev1\.Node\]\(&local<corev1\.NodeList>\.Items, |1`
+			rs := core.InstrPresent(w, id, "PROV", cnt, `^return lo\.Find\[cloudprovider\.RepairPolicy\]\(iface:\(cloudprovider\.CloudProvider\)\.RepairPolicies\(\^\$0\.cloudProvider\), closure:.*\)#1$`, 1,
+				"the counting predicate searches the provider's full list of repair policies")
+			inner := "@arg:" + anh + `|^call lo\.Find\[cloudprovider\.RepairPolicy\]\(iface:\(cloudprovider\.CloudProvider\)\.RepairPolicies\(|1`
+			return append(rs, core.InstrPresent(w, id, "PROV", inner, `^return \(utils/node\.GetCondition\(.*, \$0\.ConditionType\)\.Status == \$0\.ConditionStatus\)$`, 1,
+				"a policy matches when the node's condition of the policy's type has the policy's status")...)
+		}},
 		// findUnhealthyConditions: a condition is returned only when its status equals the policy's status
 		core.Custom{ID: "C16.DOM5", Kind: "DOM", Run: c16FindUnhealthy},
 		// …and the toleration returned with it is that condition's own policy's: the pair is replaced as a whole
